@@ -11,7 +11,7 @@ ID = "C14"
 ANCHORS = 'tools.tomtom._p_values,tools.tomtom._merge_rc_results,tools.tomtom._p_value_backgrounds'.split(",")
 MIN_INSTANCES = 8
 # rule families whose findings in this module are derived by an engine (not by comparing spellings): exempt from the rewrite gate
-SEMANTIC_RULES = {"R-TERM", "LOOKUP-GUARD", "OVERLAP", "STATE"}
+SEMANTIC_RULES = {"LOOKUP-GUARD", "OVERLAP", "STATE"}
 EXPLANATION = (
     "LOOKUP-GUARD: the null-CDF lookup B_cdfs[nt, uint64(score-1)] is reached only on paths where score-1 >= 0 is implied by the "
     "guards (an unsigned cast of a possibly negative index wraps to a huge column) - decided in the linear-constraint domain. "
@@ -212,7 +212,7 @@ def merge_rules(repo):
             out.append(unrecognised("R-TERM", fi, role, "opaque operators: %s" % sorted(te.opaque)[:2]))
         else:
             out.append(violation("R-TERM", fi, role, "merged p-value has a different normal form", pstore,
-                                 witness={"got": terms.canon(got)[:200], "expected": terms.canon(exp)[:200]}))
+                                 semantic=terms.structural_difference(got, exp), witness={"got": terms.canon(got)[:200], "expected": terms.canon(exp)[:200]}))
     role = "score, offset, overlap are taken from the strand with the larger score and the strand flag says which"
     ifs = [n for n in loop.body if isinstance(n, ast.If)]
     if len(ifs) != 1:
